@@ -1,12 +1,204 @@
-"""Translator: regenerates coq/theories/Gen/Generated.v from /repo's current sources."""
+"""Translator: regenerates coq/theories/Gen/Generated.v from /repo's current sources.
+
+The tabular parts of the code are re-extracted on every run (anchored on item names,
+not line numbers).  Anything unrecognised becomes an `Unknown` entry (or makes the
+generated file fail to compile), never a silently smaller table."""
 import os
 import re
 
 from vlib import common as C
 
 OUT = os.path.join(C.COQ, "theories", "Gen", "Generated.v")
+SRC = os.path.join(C.REPO, "src")
+
+TOKEN_KINDS = """SoftSemi LeftParen RightParen LeftBracket RightBracket LeftBrace RightBrace Comma Dot Minus Plus Slash
+Star Arrow EqualEqual BangEqual Greater GreaterEqual Less LessEqual Identifier Number StringLiteral Mod If Else Repeat
+Times Until For Each Continue Break In Procedure Return Not And Or True False Null Import Export From Eof""".split()
+
+
+class TranslateError(Exception):
+    pass
+
+
+def read(rel):
+    p = os.path.join(SRC, rel)
+    if not os.path.exists(p):
+        raise TranslateError("source file missing: src/" + rel)
+    return open(p, encoding="utf-8").read()
+
+
+def strip_comments(src):
+    """remove // and /* */ comments, keeping string and char literals intact"""
+    out = []
+    i = 0
+    n = len(src)
+    while i < n:
+        c = src[i]
+        if src.startswith("//", i):
+            while i < n and src[i] != "\n":
+                i += 1
+            continue
+        if src.startswith("/*", i):
+            j = src.find("*/", i + 2)
+            i = n if j < 0 else j + 2
+            continue
+        if c == '"':
+            j = i + 1
+            while j < n and src[j] != '"':
+                j += 2 if src[j] == "\\" else 1
+            out.append(src[i:j + 1])
+            i = j + 1
+            continue
+        if c == "'":
+            m = re.match(r"'(\\.|[^\\'])'", src[i:])
+            if m:
+                out.append(m.group(0))
+                i += len(m.group(0))
+                continue
+        out.append(c)
+        i += 1
+    return "".join(out)
+
+
+def match_brace(src, i, open_="{", close="}"):
+    """src[i] is the opening bracket; returns the index just after the matching close"""
+    depth = 0
+    n = len(src)
+    while i < n:
+        c = src[i]
+        if c == '"':
+            j = i + 1
+            while j < n and src[j] != '"':
+                j += 2 if src[j] == "\\" else 1
+            i = j + 1
+            continue
+        if c == "'":
+            m = re.match(r"'(\\.|[^\\'])'", src[i:])
+            if m:
+                i += len(m.group(0))
+                continue
+        if c == open_:
+            depth += 1
+        elif c == close:
+            depth -= 1
+            if depth == 0:
+                return i + 1
+        i += 1
+    raise TranslateError("unbalanced brackets")
+
+
+def fn_body(src, name):
+    m = re.search(r"\bfn\s+%s\s*(<[^>]*>)?\s*\(" % re.escape(name), src)
+    if not m:
+        raise TranslateError("function `%s` not found" % name)
+    i = src.index("{", match_brace(src, m.end() - 1, "(", ")") - 1)
+    j = match_brace(src, i)
+    return src[i + 1:j - 1]
+
+
+ESC = {"n": 10, "r": 13, "t": 9, "\\": 92, "'": 39, '"': 34, "0": 0}
+
+
+def rust_char(lit):
+    """code point of a Rust char literal such as 'a' or '\\n'"""
+    body = lit[1:-1]
+    if body.startswith("\\"):
+        if body[1] in ESC:
+            return ESC[body[1]]
+        raise TranslateError("unknown char escape " + lit)
+    return ord(body)
+
+
+def coq_text(s):
+    return "[" + "; ".join(str(ord(c)) for c in s) + "]"
+
+
+def tkname(n):
+    if n not in TOKEN_KINDS:
+        return "(UnknownTk %s)" % n   # makes Generated.v fail to compile: a new token kind needs a model update
+    return n
+
+
+# ---------------------------------------------------------------- lexer tables
+
+def lexer_tables(notes):
+    tok = strip_comments(read("lexer/token.rs"))
+    lx = strip_comments(read("lexer/lexer.rs"))
+    out = []
+
+    # keywords
+    body = fn_body(tok, "get_keywords_hashmap")
+    kws = re.findall(r'"([^"]*)"\s*=>\s*(\w+)', body)
+    if not kws:
+        raise TranslateError("keyword table not recognised")
+    out.append("Definition keywords : list (text * tk) := [\n  " +
+               ";\n  ".join("(%s, %s)" % (coq_text(k), tkname(v)) for k, v in kws) + "].\n")
+
+    st = fn_body(lx, "scan_token")
+    # single-character tokens: 'c' => self.add_token(Kind),
+    singles = re.findall(r"('(?:\\.|[^\\'])')\s*=>\s*self\.add_token\((\w+)\)\s*,", st)
+    out.append("Definition single_char_tokens : list (N * tk) := [" +
+               "; ".join("(%d, %s)" % (rust_char(c), tkname(k)) for c, k in singles) + "].\n")
+
+    # compound tokens: arms '!' '=' '<' '>' : which second characters give which token, and the fallback
+    comp = []
+    for ch in ["!", "=", "<", ">"]:
+        m = re.search(r"'%s'\s*=>\s*\{" % re.escape(ch), st)
+        if not m:
+            notes.append("scan_token has no arm for %r" % ch)
+            continue
+        arm = st[m.end() - 1:match_brace(st, m.end() - 1)]
+        alts = re.findall(r"self\.char_match\(('(?:\\.|[^\\'])')\)\s*\{\s*(?:self\.add_token\()?(\w+)\)?", arm)
+        fb = None
+        if "return Err" not in arm:
+            m2 = re.search(r"else\s*\{\s*(\w+)\s*\}\s*;", arm)
+            fb = m2.group(1) if m2 else "UnknownFallback"
+        comp.append("(%d, ([%s], %s))" % (ord(ch), "; ".join("(%d, %s)" % (rust_char(c), tkname(k)) for c, k in alts),
+                                         "Some " + tkname(fb) if fb else "None"))
+    out.append("Definition compound_tokens : list (N * (list (N * tk) * option tk)) := [\n  " + ";\n  ".join(comp) + "].\n")
+
+    # blanks: ' ' | '\r' | '\t' => { /* nop */ }
+    m = re.search(r"((?:'(?:\\.|[^\\'])'\s*\|\s*)*'(?:\\.|[^\\'])')\s*=>\s*\{\s*\}", st)
+    if not m:
+        raise TranslateError("blank-character arm of scan_token not recognised")
+    blanks = re.findall(r"'(?:\\.|[^\\'])'", m.group(1))
+    out.append("Definition blank_chars : list N := [" + "; ".join(str(rust_char(c)) for c in blanks) + "].\n")
+
+    # implicit-terminator set: match prev.token_type { A | B ... => { self.add_token(SoftSemi) } ... }
+    m = re.search(r"match\s+prev\.token_type\s*\{", st)
+    if not m:
+        raise TranslateError("newline rule (match prev.token_type) not found")
+    arm = st[m.end():match_brace(st, m.end() - 1) - 1]
+    m2 = re.search(r"^([\w\s|]+?)=>\s*\{\s*self\.add_token\(SoftSemi\)", arm.strip(), re.S)
+    if not m2:
+        raise TranslateError("newline rule: terminator arm not recognised")
+    ends = [x.strip() for x in m2.group(1).split("|") if x.strip()]
+    out.append("Definition end_set : list tk := [" + "; ".join(tkname(k) for k in ends) + "].\n")
+
+    # string escapes: 'n' => { result.push('\n');
+    sb = fn_body(lx, "string")
+    escs = re.findall(r"('(?:\\.|[^\\'])')\s*=>\s*\{\s*result\.push\(('(?:\\.|[^\\'])')\)", sb)
+    out.append("Definition escapes : list (N * N) := [" +
+               "; ".join("(%d, %d)" % (rust_char(a), rust_char(b)) for a, b in escs) + "].\n")
+    return "".join(out)
 
 
 def regenerate():
     notes = []
+    parts = ["(** GENERATED by /verif/vlib/translate.py from /repo/src on every check run. Do not edit. *)\n",
+             "From Aplang Require Import Base Token.\nOpen Scope N_scope.\n\n"]
+    parts.append("(* ---- lexer tables: src/lexer/token.rs, src/lexer/lexer.rs *)\n")
+    parts.append(lexer_tables(notes))
+    text = "".join(parts)
+    os.makedirs(os.path.dirname(OUT), exist_ok=True)
+    old = open(OUT).read() if os.path.exists(OUT) else None
+    if old != text:
+        with open(OUT, "w") as f:
+            f.write(text)
+        notes.append("Generated.v changed")
     return notes
+
+
+if __name__ == "__main__":
+    print(regenerate())
+    print(open(OUT).read())
